@@ -84,6 +84,50 @@ L2_GOOD = r'''
 pub fn comparison_operator(input: ParseString) -> ParseResult<FormulaOperator> { let (input, op) = alt((less_than_equal, less_than))(input)?; Ok((input, FormulaOperator::Comparison(op))) }
 pub fn l2(input: ParseString) -> ParseResult<Factor> { let (input, lhs) = l3(input)?; let (input, rhs) = many0(pair(comparison_operator,cut(l3)))(input)?; Ok((input, lhs)) }
 '''
+LOOPS = r'''
+pub fn comparison_operator(input: ParseString) -> ParseResult<FormulaOperator> { nom::combinator::map(alt((less_than_equal, less_than)), FormulaOperator::Comparison)(input) }
+fn join_ops(first: Factor, rest: Vec<(FormulaOperator, Factor)>) -> Factor { if rest.is_empty() { first } else { Factor::Term(Box::new(Term { lhs: first, rhs: rest })) } }
+pub fn l2(input: ParseString) -> ParseResult<Factor> {
+  let (mut input, lhs) = l3(input)?;
+  let mut rhs = Vec::new();
+  loop {
+    let (after_op, operator) = match comparison_operator(input.clone()) {
+      Ok(found) => found,
+      Err(nom::Err::Error(_)) => break,
+      Err(e) => return Err(e),
+    };
+    let (after_operand, operand) = cut(l3)(after_op)?;
+    rhs.push((operator, operand));
+    input = after_operand;
+  }
+  Ok((input, join_ops(lhs, rhs)))
+}
+pub fn w1(input: ParseString) -> ParseResult<Factor> {
+  let next = l2;
+  let (input, lhs) = next(input)?;
+  let mut rest = input;
+  let mut rhs = vec![];
+  while let Ok((after_op, operator)) = logic_operator(rest.clone()) {
+    let (after_operand, operand) = cut(next)(after_op)?;
+    rhs.push((operator, operand));
+    rest = after_operand;
+  }
+  Ok((rest, join_ops(lhs, rhs)))
+}
+fn level_c<'a, N, O>(next: N, op: O) -> impl FnOnce(ParseString<'a>) -> ParseResult<'a, Factor> {
+  move |input| {
+    let (input, first) = next(input)?;
+    let (input, rest) = many0(|i| { let (i, operator) = op(i)?; let (i, operand) = cut(next)(i)?; Ok((i, (operator, operand))) })(input)?;
+    Ok((input, join_ops(first, rest)))
+  }
+}
+pub fn c1(input: ParseString) -> ParseResult<Factor> { level_c(l2, logic_operator)(input) }
+pub fn postfix(input: ParseString) -> ParseResult<Factor> {
+  let (input, f) = factor(input)?;
+  let (input, mark) = opt(tag("'"))(input)?;
+  if mark.is_some() { Ok((input, Factor::Transpose(Box::new(f)))) } else { Ok((input, f)) }
+}
+'''
 L2_BAD = L2_GOOD.replace("alt((less_than_equal, less_than))", "alt((less_than, less_than_equal))")
 
 
@@ -117,6 +161,15 @@ CASES = [
     (L2_GOOD, "negate_factor", "-§", "ok", True, []),
     (L2_GOOD, "op_list", "⊻,⊕", "ok", True, ["LogicOp::Xor", "LogicOp::Xor"]),   # closure |i| p(i), separated_list1
     (L2_GOOD, "l1", "", "err", True, None),
+    # hand-written repetitions: loop + match + break, while-let, closure-returning helper, local alias of a parser, choice on a plain value
+    (LOOPS, "l1", "§ <= § < §", "ok", True, ["ComparisonOp::LessThanEqual", "ComparisonOp::LessThan"]),
+    (LOOPS, "l1", "§ < ^ §", "fail", False, None),                         # cut inside the loop: `?` on the right operand
+    (LOOPS, "w1", "§ ⊻ § < §", "ok", True, ["LogicOp::Xor", "ComparisonOp::LessThan"]),
+    (LOOPS, "w1", "§ ^^ §", "fail", False, None),
+    (LOOPS, "c1", "§ && § ⊻ §", "ok", True, ["LogicOp::And", "LogicOp::Xor"]),
+    (LOOPS, "c1", "§ ^^ §", "fail", False, None),
+    (LOOPS, "postfix", "§'", "ok", True, []),
+    (LOOPS, "postfix", "§", "ok", True, []),
 ]
 
 
